@@ -146,7 +146,7 @@ def run(ctx):
             break
     inp = ctx.write_ndjson("cases.ndjson", cases)
     traces_out = ctx.tmp("real_traces.ndjson")
-    gr = ctx.go_test("tsdb", ["db_replay_test.go", "db_reopen_extras_test.go", "c03_crash_test.go"], "^TestVerifC03Crash$",
+    gr = ctx.go_test("tsdb", ["c03_dbhelpers_test.go", "c03_crash_test.go"], "^TestVerifC03Crash$",
                      env={"VERIF_IN": inp, "C03_TRACES_OUT": traces_out}, timeout="120m")
     ctx.absorb(gr, label="C03 crash runs")
     # (T) the hook traces of the dry runs must be behaviours of Crash.tla (Trace_Crash.tla, one TLC run per OOO window)
